@@ -24,6 +24,18 @@ pub fn mk(k: usize, bin_size: usize, bin_count: usize, norm: bool) -> CovCompute
     }
 }
 
+/// The computer built by the REAL public constructor + set_norm (rayon::current_num_threads stubbed -> 1 under Kani).
+pub fn mk_new(k: usize, bin_size: usize, bin_count: usize, norm: bool) -> CovComputer {
+    let mut cc = CovComputer::new(String::new(), String::new(), k, bin_size, bin_count);
+    cc.set_norm(norm);
+    cc
+}
+
+#[cfg(kani)]
+pub fn one_thread() -> usize {
+    1
+}
+
 /// K concrete, N = max length, E = entries of the counts table (symbolic
 /// canonical-or-not keys, symbolic u32 multiplicities), BINS = bin count (concrete:
 /// a symbolic allocation size made CBMC's array encoding run out of memory).
@@ -60,7 +72,7 @@ pub fn c08_body<const K: usize, const N: usize, const E: usize, const BINS: usiz
         e += 1;
     }
 
-    let cc = mk(K, bin_size, bin_count, NORM);
+    let cc = mk_new(K, bin_size, bin_count, NORM);
     let v = cc.vectorise_one(&seq[..len], &counts);
     check!(v.len() == bin_count, "C08: row does not have bin-count entries");
     let b = any_usize();
